@@ -53,6 +53,7 @@ TEXT = {
     "C14": dict(engine="engine-B-trace", design_ref="6/C14", technique="TLA+ model of the refresh machinery against the expiry timers (KeepAlive.tla, unbounded duration) + TLC; trace validation of hours-long executions of the real client against the real server",
                 level_note="Trusted: TLC, Go, synctest's clock, the in-memory network. The model abstracts time to 10 s units and one peer; the executions are a seeded sample of loss schedules and traffic patterns.",
                 level_text="C14_AllocAlive / C14_ChanAlive / C14_PermAlive / C14_CloseReleases are invariants of KeepAlive.tla over its whole (finite, time-abstract) state space; TraceKeepAlive.tla then decides for every recorded execution that every probe sent while the socket was open was delivered, that the server never deleted the allocation under the live client, and that Close released it."),
+    "C15": core("6/C15", "TurnLife.tla adds the teardown causes (relay socket failure, Server.Close) and the event ledger EvDiff to the relay model; C15_NothingAfterClose / C15_NoOrphans are invariants. On the code, per step: lifecycle callbacks = EvDiff, open relay sockets = live allocations; per path: Server.Close then a two-hour drain with nothing left, nothing released twice and no late event."),
     "C16": dict(engine="engine-A-walk", design_ref="6/C16", technique="TLA+ spec of the RFC 6062 relay (TurnTCP.tla) + TLC + lock-step replay on a real server with a stream listener",
                 level_note="Trusted: TLC, Go, synctest, the harness's in-memory streams. Bounded: 2 clients, 2 users, 2 peer IPs x 2 ports, 3 connection ids, depth 6-7.",
                 level_text="TypeOK, C16_UniqueIds, C16_BindOnce, C16_InboundPermitted, C16_Dup446, C16_HeldDelivered are model-checked; every edge (Connect, inbound peer connection, ConnectionBind by right/wrong user and id, data both ways, closes from either side, control-connection close, time to 29/30 s) is replayed and responses, indications, piped bytes, closes, the connection table and the locks are compared."),
